@@ -221,6 +221,18 @@ void orc_delivery(Delivery &d) {
     if (on("C16")) orc_c16_delivery(d);
     if (on("C17")) orc_c17_delivery(d);
     if (on("C19")) orc_c19_delivery(d);
+    // a one-shot subscription is gone once it delivered
+    for (auto &e : d.evts) {
+        if (e.type != M_SRC_TYPE_PS || e.system || d.in_unstash || !e.ud) continue;
+        Slot &s = W->slots[d.slot];
+        for (auto it = s.subs.begin(); it != s.subs.end(); ++it)
+            if (it->second.ud == e.ud && (it->second.flags & M_SRC_ONESHOT)) {
+                if (it->second.re_ok) regfree(&it->second.re);
+                s.oneshot_fired.push_back(e.ud);
+                s.subs.erase(it);
+                break;
+            }
+    }
     // bookkeeping shared by several oracles: which (send, recipient) pairs were delivered
     if (!d.in_unstash)
         for (auto &e : d.evts)
